@@ -8,6 +8,9 @@ tier="${1:-quick}"; jobs="${2:-3}"
 cd /verif || exit 2
 one() {
   d="$(realpath "$1")"; tier="$2"; name="$(basename "$d")"; id="${name%%-*}"
+  # a change that another property's check reports names it in meta.json
+  other="$(python3 -c "import json,sys; print(json.load(open(sys.argv[1])).get('caught_by_property',''))" "$d/meta.json" 2>/dev/null)"
+  [ -n "$other" ] && id="$other"
   wt="$(mktemp -d /tmp/allseeds.XXXXXX)"
   git -C /repo worktree add --detach "$wt" HEAD >/dev/null 2>&1 || { echo "$name ERROR worktree"; return; }
   if git -C "$wt" apply "$d/patch.diff" 2>/dev/null; then
